@@ -1,26 +1,51 @@
-import RsMatterVerif.Lemmas.Transport
+import RsMatterVerif.Lemmas.RxPath
 /-!
 # C10 — a message reaches only its own exchange, and the receive path never wedges
 
-Theorems over `Model/Transport.lean`:
-* `delivered_only_to_owner`: a received message changes at most one exchange slot of its session —
-  the one whose (exchange id, role) the header addresses — or fills one free slot with a new
-  accept-pending exchange, or changes nothing; `owner_is_keyed` says what "addresses" means;
-* `new_exchange_gate` / `new_exchange_gate_complete`: a new exchange is opened iff no live exchange
-  owns the message, the initiator flag is set, the opcode may open one, the session is not expired,
-  a slot is free (and the counter is fresh);
-* `unknown_exchange_dropped`, `expired_opens_nothing`;
-* `unclaimed_is_discarded`: in every state in which a message waits in the RX slot, either a sweep
-  that empties the slot is enabled now (orphan sweep: session vanished / exchange unknown / exchange
-  dropped), or the exchange is accept-pending and the accept sweep empties the slot once the accept
-  deadline has passed, or the exchange has a live owner; and `owner_drop_enables_discard`: when that
-  owner drops its exchange the slot becomes free or dropped (so the orphan sweep is enabled).
-  With the sweeper tasks scheduled (fairness hypothesis, see `docs/C10.md`) the RX slot is therefore
-  freed within the accept deadline plus one sweep period unless a live owner is about to consume it.
-* `closer_finds_dropped`: the dropped-exchange closer does something whenever a dropped exchange exists.
+## A. Run-level theorems (over ALL histories of the transition system `Model/RxPath.lean`:
+session table + the single RX packet slot + clock; steps = `process_rx`/`decode_packet`/`handle_rx_packet`,
+`accept_if`, `ExchangeId::recv`, send, `Exchange::drop`, `initiate_for_session`, session establishment,
+session removal, time, the accept-timeout sweep, the orphan sweep, the dropped-exchange closer)
+`Reach n` = `n` is reachable from the empty node by ANY history (no side condition: with the repaired
+`Sessions::add` — finding `C10-session-id-wrap` — internal session ids stay unique also after the
+28-bit counter has wrapped; `Model/RxPath.addSess`).
+* `delivered_only_to_owner_run`: in every reachable state, if `recv` of the exchange (uid, idx) returns
+  the waiting message, then that exchange's session has the message's local session id AND peer
+  (address/node ids: `port`) AND security kind, the exchange has the message's exchange id and the role
+  its initiator flag addresses, it is owned by a live `Exchange`, it is the ONLY exchange of the node
+  with that identity, and it is the one the transport's own look-up (`get_for_rx` + `get_exch_for_rx`) finds.
+* `pending_has_message` (+ `accept_pending_is_stamped`, `empty_slot_no_pending`): an accept-pending
+  exchange exists only while its first message waits in the RX slot, it is that message's owner, and its
+  `recvAt` stamp is the arrival time of that message (so `rp → recvAt = some _` is an invariant).
+* `slot_always_freeable`: in every reachable state with an occupied RX slot: the orphan sweep empties it
+  now, or its owner is accept-pending (`accept_if` is enabled; time can advance; from the accept deadline
+  on the accept sweep empties it), or its owner is a live `Exchange` (whose `recv` returns it unless a
+  retransmission is pending, and whose drop makes the orphan sweep empty it).
+* `unclaimed_discarded_within`: liveness under an EXPLICIT fairness hypothesis (`SweepFair`: from every
+  point of an infinite run each sweeper is polled before `poll` more milliseconds have passed) and
+  time divergence: a message nobody owns (no live `Exchange` ever claims it) has left the RX slot by
+  `max (now, arrival + ACCEPT_TIMEOUT_MS) + pollAccept + pollOrphan`.
+* `closer_acts_when_dropped`, `dropped_exchange_closed`, `closer_progress`, `closer_drains_all`: in every
+  reachable state with a dropped exchange the closer does something; what it does: frees that slot
+  (writing the standalone ack iff one is owed) or closes the session (iff a retransmission is pending);
+  no other exchange becomes dropped; each such run reduces the number of dropped exchanges, so after
+  that many runs none is left.
+* `other_exchanges_progress`: with the slot free, a fresh message for ANY owned exchange that is not
+  waiting for an acknowledgement is kept for it and its `recv` returns it — whatever state the other
+  exchanges of the node are in.
+
+## B. One-step theorems about `Session::post_recv` and the sweep conditions (every `Sess` / `Table`)
+* `post_recv_touches_only_owner_slot` (was `delivered_only_to_owner`): which exchange slot `post_recv`
+  MUTATES — not who is handed the packet (that is section A); `owner_is_keyed`, `delivery_keeps_identity`;
+* `new_exchange_gate` / `new_exchange_gate_complete`, `unknown_exchange_dropped`, `expired_opens_nothing`;
+* `sweep_conditions_exhaustive` (was `unclaimed_is_discarded`): the enabling conditions of the two sweeps
+  together with {accept-pending before the deadline, initiator-owned, responder-owned} are exhaustive —
+  a case split, not liveness; `accept_deadline_passes`, `owner_drop_enables_discard`;
+* `closer_finds_dropped` / `closerIdle_nothing`: closer idle ⇒ no dropped exchange (the converse
+  direction needs unique internal ids and is `closer_acts_when_dropped` in section A).
 -/
 namespace C10
-open Transport
+open Transport RxPath
 
 /-- the owner of a message is keyed by (exchange id, role): an initiator-flagged message addresses
 our responder-role exchange and vice versa; the first such slot is taken -/
@@ -29,9 +54,10 @@ theorem owner_is_keyed (s : Sess) (h : RxHdr) (i : Nat) (hf : s.getExchForRx h =
   let ⟨e, h1, h2, h3, _⟩ := getExchForRx_some s h i hf
   ⟨e, h1, h2, h3⟩
 
-/-- **Delivered only to the owner**: every slot that differs after `post_recv` is the owner's slot
-(result `Ok(false)`) or the newly opened one (result `Ok(true)`, the slot was free before). -/
-theorem delivered_only_to_owner (s : Sess) (h : RxHdr) (now : Nat) (j : Nat)
+/-- One step, one session: every exchange slot that differs after `post_recv` is the owner's slot
+(result `Ok(false)`) or the newly opened one (result `Ok(true)`, the slot was free before). This is
+about which slot `post_recv` mutates; who is handed the packet is `delivered_only_to_owner_run`. -/
+theorem post_recv_touches_only_owner_slot (s : Sess) (h : RxHdr) (now : Nat) (j : Nat)
     (hchg : (s.postRecv h now).1.slot j ≠ s.slot j) :
     ((s.postRecv h now).2 = .ok false ∧ s.getExchForRx h = some j) ∨
     ((s.postRecv h now).2 = .ok true ∧ s.slot j = none ∧ s.getExchForRx h = none) := by
@@ -134,9 +160,13 @@ example : (resCode exS1.2, resCode exS2.2, resCode exS3.2, resCode exS4.2) = (1,
 
 /-! ## The receive slot does not wedge -/
 
-/-- **In every state with a message waiting in the RX slot a discarding step is enabled or the
-message has a live claimant.** `port`/`sid` are the packet's peer port and session id, `h` its header. -/
-theorem unclaimed_is_discarded (t : Table) (port sid : Nat) (h : RxHdr) (now : Nat) :
+/-- One step, any table (no reachability): the enabling conditions of the two sweeps together with
+{accept-pending, initiator-owned, responder-owned} are exhaustive. Not a liveness statement: for an
+owned exchange and for an accept-pending one before its deadline no sweep is enabled, and on an
+arbitrary table an accept-pending exchange need not even carry a stamp (`recvAt = none`: no sweep
+ever fires) — that such states are unreachable is `pending_has_message`; that the slot can always
+be freed is `slot_always_freeable`. `port`/`sid` are the packet's peer and session id, `h` its header. -/
+theorem sweep_conditions_exhaustive (t : Table) (port sid : Nat) (h : RxHdr) (now : Nat) :
     -- the orphan sweep empties the slot now
     (t.sweepOrphan port sid h now).2 = true ∨
     -- or the message belongs to a live exchange …
@@ -212,53 +242,17 @@ theorem owner_drop_enables_discard (s : Sess) (i : Nat) (e : Exch) (hs : s.slot 
     rw [slot_set]; simp [hlt]
 
 /-- `findDropped` misses nothing -/
-theorem findDropped_none (want : Bool) : ∀ (l : List Sess), findDropped want l = none →
-    ∀ s ∈ l, ∀ i e, s.slot i = some e → ¬ (e.role.isDropped = true ∧ e.mrp.isRetransPending = want) := by
-  intro l
-  induction l with
-  | nil => intro _ s hs; simp at hs
-  | cons x xs ih =>
-    intro hf s hs i e hsl ⟨hd, hr⟩
-    have hgo : ∀ (es : List (Option Exch)) (k : Nat), findDropped.go want es k = none →
-        ∀ (j : Nat) (e : Exch), es[j]? = some (some e) → ¬ (e.role.isDropped = true ∧ e.mrp.isRetransPending = want) := by
-      intro es
-      induction es with
-      | nil => intro k _ j e hj; simp at hj
-      | cons y ys ihy =>
-        intro k hk j e hj ⟨h1, h2⟩
-        cases y with
-        | none =>
-          simp only [findDropped.go] at hk
-          cases j with
-          | zero => simp at hj
-          | succ j => rw [List.getElem?_cons_succ] at hj; exact ihy (k + 1) hk j e hj ⟨h1, h2⟩
-        | some e0 =>
-          simp only [findDropped.go] at hk
-          split at hk
-          · simp at hk
-          · rename_i hnot
-            cases j with
-            | zero =>
-              simp only [List.getElem?_cons_zero, Option.some.injEq] at hj
-              subst hj
-              simp [h1, h2] at hnot
-            | succ j => rw [List.getElem?_cons_succ] at hj; exact ihy (k + 1) hk j e hj ⟨h1, h2⟩
-    simp only [findDropped] at hf
-    split at hf
-    · simp at hf
-    · rename_i hx
-      rcases List.mem_cons.1 hs with h1 | h1
-      · subst h1
-        exact hgo s.exchs 0 hx i e ((slot_eq_some s i e).1 hsl) ⟨hd, hr⟩
-      · exact ih hf s h1 i e hsl ⟨hd, hr⟩
+theorem findDropped_none (want : Bool) (l : List Sess) (h : findDropped want l = none) :
+    ∀ s ∈ l, ∀ i e, s.slot i = some e → ¬ (e.role.isDropped = true ∧ e.mrp.isRetransPending = want) :=
+  RxPath.findDropped_none want l h
 
 /-- the closer has nothing to do: neither search finds a dropped exchange -/
 def closerIdle (t : Table) : Prop := findDropped true t.sessions = none ∧ findDropped false t.sessions = none
 
-/-- **The closer misses no dropped exchange**: when its two searches come back empty (and only then
-does it answer "nothing to do", `closerIdle_nothing`), no exchange of any session is in a dropped
-state. With the closer scheduled, every dropped exchange is therefore eventually closed — with the
-acknowledgement it owes, or by closing its session (`Table.sweepDropped`). -/
+/-- the closer's two searches miss no dropped exchange: when both come back empty no exchange of any
+session is in a dropped state (any table). The direction the property needs — a dropped exchange
+exists ⇒ the closer acts on one — is false on tables with duplicate internal ids and is proved for
+reachable states as `closer_acts_when_dropped`. -/
 theorem closer_finds_dropped (t : Table) (hn : closerIdle t) :
     ∀ s ∈ t.sessions, ∀ i e, s.slot i = some e → e.role.isDropped = false := by
   intro s hs i e hsl
@@ -275,5 +269,554 @@ theorem closerIdle_nothing (t : Table) (now : Nat) (hn : closerIdle t) : (t.swee
   simp [hn.1, hn.2]
 
 example : closerIdle {} := ⟨rfl, rfl⟩
+
+/-! # A. Run-level theorems over the receive-path transition system -/
+
+/-- **Delivered only to the owner** (every history): whenever `recv` of the exchange (uid, idx) returns
+a message, that message was waiting in the RX slot and the exchange is the one identified by the
+message's session (local session id, peer address / node ids, security kind), exchange id and role;
+it is owned by a live `Exchange`; NO other exchange of the node has this identity; and it is the
+exchange the transport's own look-up finds. (Seeded change C10-a — `recv` matching on the local
+session id only — falsifies this: two unsecured sessions of different peers, same exchange id.) -/
+theorem delivered_only_to_owner_run {n : Node} (hr : Reach n) {uid idx : Nat} {m : Msg}
+    (hd : (step n (.recv uid idx)).2 = .delivered uid idx m) :
+    ∃ r s e, n.rx = some r ∧ r.m = m ∧ s ∈ n.t.sessions ∧ s.uid = uid ∧ s.slot idx = some e ∧
+      (s.localSid = m.sid ∧ s.port = m.port ∧ s.mode.enc = (m.sid != 0)) ∧
+      (e.id = m.exch ∧ e.role.isResponder = m.initiator) ∧ RoleSt.isOwned e.role = true ∧
+      (∀ s' ∈ n.t.sessions, ∀ j f, s'.slot j = some f → s'.localSid = m.sid → s'.port = m.port →
+          f.id = m.exch → f.role.isResponder = m.initiator → s' = s ∧ j = idx) ∧
+      ownerOf n.t m = some (uid, idx) := by
+  have hi := inv_reach hr
+  simp only [step, recv] at hd
+  cases hs : n.t.sess uid with
+  | none => rw [get_absent hs] at hd; simp at hd
+  | some s =>
+    obtain ⟨hm, hu⟩ := sess_some_mem n.t uid s hs
+    subst hu
+    rw [get_mem hi.tinv.uidN hm] at hd
+    simp only at hd
+    cases he : (touch s n.now).slot idx with
+    | none => rw [he] at hd; simp at hd
+    | some e =>
+      rw [he] at hd
+      simp only at hd
+      split at hd
+      · simp at hd
+      · rename_i hown
+        split at hd
+        · simp at hd
+        · cases hrx : n.rx with
+          | none => rw [hrx] at hd; simp at hd
+          | some r =>
+            rw [hrx] at hd
+            simp only at hd
+            split at hd
+            · rename_i hmatch
+              simp only [Out.delivered.injEq, true_and] at hd
+              simp only [recvMatch, Bool.and_eq_true] at hmatch
+              obtain ⟨hf, hfor⟩ := hmatch
+              rw [(touch_same s n.now).isForRx] at hf
+              have he' : s.slot idx = some e := he
+              have hf' := hf
+              have hfor' := hfor
+              simp only [Sess.isForRx, Bool.and_eq_true, beq_iff_eq, Bool.not_eq_true'] at hf
+              simp only [Exch.isForRx, Bool.and_eq_true, beq_iff_eq] at hfor
+              have hown' : RoleSt.isOwned e.role = true := by simpa using hown
+              refine ⟨r, s, e, rfl, hd, hm, rfl, he', ?_, ?_, hown', ?_, ?_⟩
+              · rw [← hd]; exact ⟨hf.1.1.1, hf.1.1.2, hf.1.2⟩
+              · rw [← hd]; exact ⟨hfor.1, hfor.2.symm⟩
+              · intro s' hs' j f hj h1 h2 h3 h4
+                rw [← hd] at h1 h2 h3 h4
+                have hu := hi.tinv.keyI s' hs' s hm (by rw [h1, hf.1.1.1]) (by rw [h2, hf.1.1.2])
+                have hss := nodup_map_inj (fun (x : Sess) => x.uid) _ hi.tinv.uidN s' hs' s hm hu
+                subst hss
+                exact ⟨rfl, hi.tinv.uniq s' hs' j idx f e hj he' (by rw [h3]; exact hfor.1.symm)
+                  (by rw [h4]; exact hfor.2)⟩
+              · rw [← hd, ownerOf_eq hi.tinv hm hf', getExchForRx_of_slot s (hi.tinv.uniq s hm) _ idx e he' hfor']
+                rfl
+            · simp at hd
+
+/-- the same for an explicit history: after ANY list of steps from the empty node -/
+theorem delivered_only_to_owner_history (now0 : Nat) (ops : List Op)
+    {uid idx : Nat} {m : Msg}
+    (hd : (step (run { now := now0 } ops).1 (.recv uid idx)).2 = .delivered uid idx m) :
+    ownerOf (run { now := now0 } ops).1.t m = some (uid, idx) ∧ (run { now := now0 } ops).1.rx.map (·.m) = some m := by
+  obtain ⟨r, _, _, hrx, hrm, _, _, _, _, _, _, _, how⟩ :=
+    delivered_only_to_owner_run (reach_run (Reach.init now0) ops) hd
+  exact ⟨how, by rw [hrx]; simp [hrm]⟩
+
+/-- **An accept-pending exchange always has its message** (every history): it exists only while the
+message that opened it waits in the RX slot, it is that message's owner for the transport's look-up,
+and its `recvAt` stamp is the message's arrival time, which is not in the future. -/
+theorem pending_has_message {n : Node} (hr : Reach n) {s : Sess} (hs : s ∈ n.t.sessions) {i : Nat} {e : Exch}
+    (he : s.slot i = some e) (hrp : e.role = .rp) :
+    ∃ r, n.rx = some r ∧ ownerOf n.t r.m = some (s.uid, i) ∧ e.mrp.recvAt = some r.arrivedAt ∧
+      r.arrivedAt ≤ n.now := by
+  have hi := inv_reach hr
+  obtain ⟨r, hrx, hf, hfor, hst⟩ := hi.pend s hs i e he hrp
+  refine ⟨r, hrx, ?_, hst, hi.time r hrx⟩
+  rw [ownerOf_eq hi.tinv hs hf, getExchForRx_of_slot s (hi.tinv.uniq s hs) _ i e he hfor]
+  rfl
+
+/-- the invariant the audit asked for: accept-pending ⇒ stamped -/
+theorem accept_pending_is_stamped {n : Node} (hr : Reach n) {s : Sess} (hs : s ∈ n.t.sessions) {i : Nat} {e : Exch}
+    (he : s.slot i = some e) (hrp : e.role = .rp) : ∃ t0, e.mrp.recvAt = some t0 ∧ t0 ≤ n.now := by
+  obtain ⟨r, _, _, h1, h2⟩ := pending_has_message hr hs he hrp
+  exact ⟨_, h1, h2⟩
+
+/-- no accept-pending exchange is left behind when the slot is empty (the `xp = 0` clause of the
+system-level oracle) -/
+theorem empty_slot_no_pending {n : Node} (hr : Reach n) (hrx : n.rx = none) {s : Sess} (hs : s ∈ n.t.sessions)
+    {i : Nat} {e : Exch} (he : s.slot i = some e) : e.role ≠ .rp := by
+  intro hrp
+  obtain ⟨r, h1, _⟩ := pending_has_message hr hs he hrp
+  rw [hrx] at h1; cases h1
+
+/-- **The RX slot can always be freed** (every reachable state with an occupied slot). -/
+theorem slot_always_freeable {n : Node} (hr : Reach n) {r : Held} (hrx : n.rx = some r) :
+    -- (a) nobody can claim the message: the orphan sweep empties the slot now
+    ((step n .sweepOrphan).2 = .swept true ∧ (step n .sweepOrphan).1.rx = none) ∨
+    -- (b) its owner is accept-pending: a responder can accept it now; time can advance; and from the
+    --     accept deadline on the accept sweep empties the slot
+    (∃ s ∈ n.t.sessions, ∃ i e, s.slot i = some e ∧ e.role = .rp ∧ ownerOf n.t r.m = some (s.uid, i) ∧
+        e.mrp.recvAt = some r.arrivedAt ∧ (step n .accept).2 = .accepted s.uid i ∧
+        ∀ d, r.arrivedAt + Consts.acceptTimeoutMs ≤ n.now + d →
+          (step (step n (.tick d)).1 .sweepAccept).2 = .swept true ∧
+          (step (step n (.tick d)).1 .sweepAccept).1.rx = none) ∨
+    -- (c) its owner is a live `Exchange`: `recv` returns it (unless the exchange still waits for an
+    --     acknowledgement), and if the owner is dropped instead the orphan sweep empties the slot
+    (∃ s ∈ n.t.sessions, ∃ i e, s.slot i = some e ∧ RoleSt.isOwned e.role = true ∧
+        ownerOf n.t r.m = some (s.uid, i) ∧
+        (e.mrp.isRetransPending = false →
+          (step n (.recv s.uid i)).2 = .delivered s.uid i r.m ∧ (step n (.recv s.uid i)).1.rx = none) ∧
+        (step (step n (.dropEx s.uid i)).1 .sweepOrphan).2 = .swept true ∧
+        (step (step n (.dropEx s.uid i)).1 .sweepOrphan).1.rx = none) := by
+  have hi := inv_reach hr
+  rcases getForRx_cases n.t hi.tinv r.m.port r.m.sid n.now with ⟨s, hs, hf, _⟩ | ⟨hnone, _⟩
+  · cases hx : s.getExchForRx r.m.hdr with
+    | none =>
+      left
+      exact sweepOrphan_node hrx ((sweepOrphan_eval hi.tinv hs hf _ _).2 (fun i e hg => by rw [hx] at hg; cases hg))
+    | some i =>
+      obtain ⟨e, he, hfor⟩ := getExchForRx_slot s _ i hx
+      have how : ownerOf n.t r.m = some (s.uid, i) := by rw [ownerOf_eq hi.tinv hs hf, hx]; rfl
+      cases hrole : e.role with
+      | id =>
+        left
+        refine sweepOrphan_node hrx ((sweepOrphan_eval hi.tinv hs hf _ _).2 (fun j f hg hsj => ?_))
+        rw [hx] at hg; cases hg; rw [he] at hsj; cases hsj; rw [hrole]; rfl
+      | rd =>
+        left
+        refine sweepOrphan_node hrx ((sweepOrphan_eval hi.tinv hs hf _ _).2 (fun j f hg hsj => ?_))
+        rw [hx] at hg; cases hg; rw [he] at hsj; cases hsj; rw [hrole]; rfl
+      | rp =>
+        right; left
+        obtain ⟨r', hr', _, _, hst⟩ := hi.pend s hs i e he hrole
+        rw [hrx] at hr'; cases hr'
+        refine ⟨s, hs, i, e, he, hrole, how, hst, accept_fires hi hrx hs hf he hfor hrole, ?_⟩
+        intro d hd
+        have hrx' : (step n (.tick d)).1.rx = some r := hrx
+        refine sweepAccept_node hrx' ?_
+        show (n.t.sweepAccept r.m.port r.m.sid r.m.hdr (n.now + d)).2 = true
+        refine sweepAccept_fires hi.tinv hs hf he hfor hrole ?_
+        simp [Mrp.hasRxTimedOut, hst, hd]
+      | io =>
+        right; right
+        have hown : RoleSt.isOwned e.role = true := by rw [hrole]; rfl
+        exact ⟨s, hs, i, e, he, hown, how, fun hnr => recv_fires hi hrx hs hf he hfor hown hnr,
+          orphan_after_drop hi hrx hs hf he hfor hown⟩
+      | ro =>
+        right; right
+        have hown : RoleSt.isOwned e.role = true := by rw [hrole]; rfl
+        exact ⟨s, hs, i, e, he, hown, how, fun hnr => recv_fires hi hrx hs hf he hfor hown hnr,
+          orphan_after_drop hi hrx hs hf he hfor hown⟩
+  · left
+    exact sweepOrphan_node hrx (sweepOrphan_eval_none hi.tinv hnone _ _)
+
+/-! ## Liveness under an explicit fairness hypothesis -/
+
+/-- an infinite run of the node (the scheduler's choices are the sequence `op`) -/
+structure Run where
+  st : Nat → Node
+  op : Nat → Op
+  next : ∀ k, st (k + 1) = (step (st k) (op k)).1
+  reach0 : Reach (st 0)
+
+/-- **Fairness hypothesis** (not proved — it is the executor's and the timers' obligation): from every
+point of the run the accept-timeout sweeper is polled again before `pollA` more milliseconds have
+passed (`process_accept_timeout_rx` re-arms a 50 ms timer) and the orphan sweeper before `pollO`
+(`process_orphaned_rx` is woken by every change of the RX slot / session table). In particular the
+clock does not jump over a poll. -/
+def SweepFair (ρ : Run) (pollA pollO : Nat) : Prop :=
+  (∀ k, ∃ j, k ≤ j ∧ ρ.op j = .sweepAccept ∧ (ρ.st j).now ≤ (ρ.st k).now + pollA) ∧
+  (∀ k, ∃ j, k ≤ j ∧ ρ.op j = .sweepOrphan ∧ (ρ.st j).now ≤ (ρ.st k).now + pollO)
+
+/-- time does not stop -/
+def TimeDiverges (ρ : Run) : Prop := ∀ T, ∃ j, T ≤ (ρ.st j).now
+
+/-- some live `Exchange` can claim the message -/
+def OwnedClaim (n : Node) (m : Msg) : Prop :=
+  ∃ s ∈ n.t.sessions, ∃ i e, s.isForRx m.port m.sid = true ∧ s.slot i = some e ∧ e.isForRx m.hdr = true ∧
+    RoleSt.isOwned e.role = true
+
+theorem Run.reach (ρ : Run) : ∀ k, Reach (ρ.st k) := by
+  intro k
+  induction k with
+  | zero => exact ρ.reach0
+  | succ k ih => rw [ρ.next k]; exact Reach.step _ ih
+
+theorem Run.now_mono (ρ : Run) (j : Nat) : ∀ d, (ρ.st j).now ≤ (ρ.st (j + d)).now := by
+  intro d
+  induction d with
+  | zero => exact Nat.le_refl _
+  | succ d ih =>
+    have : ρ.st (j + (d + 1)) = (step (ρ.st (j + d)) (ρ.op (j + d))).1 := ρ.next (j + d)
+    rw [this]
+    exact Nat.le_trans ih (now_step _ _).1
+
+theorem Run.now_le (ρ : Run) {i j : Nat} (h : i ≤ j) : (ρ.st i).now ≤ (ρ.st j).now := by
+  have := ρ.now_mono i (j - i)
+  rwa [Nat.add_sub_cancel' h] at this
+
+/-- a waiting message stays until the slot is emptied -/
+theorem Run.persist (ρ : Run) {j : Nat} {x : Held} (hx : (ρ.st j).rx = some x) :
+    ∀ d, (∃ i, j ≤ i ∧ i < j + d ∧ (ρ.st (i + 1)).rx = none) ∨ (ρ.st (j + d)).rx = some x := by
+  intro d
+  induction d with
+  | zero => exact Or.inr hx
+  | succ d ih =>
+    rcases ih with ⟨i, h1, h2, h3⟩ | h
+    · exact Or.inl ⟨i, h1, by omega, h3⟩
+    · have hn : ρ.st (j + d + 1) = (step (ρ.st (j + d)) (ρ.op (j + d))).1 := ρ.next (j + d)
+      rcases rx_step (ρ.st (j + d)) (ρ.op (j + d)) with h1 | h1 | h1
+      · right; show (ρ.st (j + d + 1)).rx = some x; rw [hn, h1]; exact h
+      · left; exact ⟨j + d, by omega, by omega, by rw [hn]; exact h1⟩
+      · rw [h] at h1; cases h1
+
+/-- … and while it waits with no accept-pending exchange, none appears -/
+theorem Run.persist_noPending (ρ : Run) {j : Nat} {x : Held} (hx : (ρ.st j).rx = some x)
+    (hnp : NoPending (ρ.st j).t) :
+    ∀ d, (∃ i, j ≤ i ∧ i < j + d ∧ (ρ.st (i + 1)).rx = none) ∨
+      ((ρ.st (j + d)).rx = some x ∧ NoPending (ρ.st (j + d)).t) := by
+  intro d
+  induction d with
+  | zero => exact Or.inr ⟨hx, hnp⟩
+  | succ d ih =>
+    rcases ih with ⟨i, h1, h2, h3⟩ | ⟨h, hp⟩
+    · exact Or.inl ⟨i, h1, by omega, h3⟩
+    · have hn : ρ.st (j + d + 1) = (step (ρ.st (j + d)) (ρ.op (j + d))).1 := ρ.next (j + d)
+      have hnp' : NoPending (ρ.st (j + d + 1)).t := by
+        rw [hn]
+        exact noPending_step (inv_reach (ρ.reach _)) (by rw [h]; simp) hp _
+      rcases rx_step (ρ.st (j + d)) (ρ.op (j + d)) with h1 | h1 | h1
+      · right; exact ⟨by show (ρ.st (j + d + 1)).rx = some x; rw [hn, h1]; exact h, hnp'⟩
+      · left; exact ⟨j + d, by omega, by omega, by rw [hn]; exact h1⟩
+      · rw [h] at h1; cases h1
+
+theorem exists_least (p : Nat → Prop) : ∀ n, p n → ∃ m, p m ∧ ∀ j, j < m → ¬ p j := by
+  intro n
+  induction n using Nat.strongRecOn with
+  | _ n ih =>
+    intro hn
+    by_cases h : ∃ j, j < n ∧ p j
+    · obtain ⟨j, hj, hpj⟩ := h
+      exact ih j hj hpj
+    · exact ⟨n, hn, fun j hj hp => h ⟨j, hj, hp⟩⟩
+
+/-- **The receive path never wedges on an unclaimed message** (liveness, with a bound): in every fair
+run in which time does not stop, a message that waits in the RX slot and that no live `Exchange` ever
+claims has left the slot by `max (now, arrival + ACCEPT_TIMEOUT_MS) + pollA + pollO`; measured from
+its arrival that is the accept deadline plus one poll of each sweeper. -/
+theorem unclaimed_discarded_within (ρ : Run) {pollA pollO : Nat} (hfair : SweepFair ρ pollA pollO)
+    (hdiv : TimeDiverges ρ) {k : Nat} {x : Held} (hx : (ρ.st k).rx = some x)
+    (hun : ∀ j, k ≤ j → (ρ.st j).rx = some x → ¬ OwnedClaim (ρ.st j) x.m) :
+    ∃ j, k ≤ j ∧ (ρ.st (j + 1)).rx = none ∧
+      (ρ.st j).now ≤ max (ρ.st k).now (x.arrivedAt + Consts.acceptTimeoutMs) + pollA + pollO := by
+  -- A: an accept sweep at or after the deadline, not later than one poll after `max now deadline`
+  have stepA : ∃ a, k ≤ a ∧ ρ.op a = .sweepAccept ∧ x.arrivedAt + Consts.acceptTimeoutMs ≤ (ρ.st a).now ∧
+      (ρ.st a).now ≤ max (ρ.st k).now (x.arrivedAt + Consts.acceptTimeoutMs) + pollA := by
+    by_cases hk : x.arrivedAt + Consts.acceptTimeoutMs ≤ (ρ.st k).now
+    · obtain ⟨a, h1, h2, h3⟩ := hfair.1 k
+      exact ⟨a, h1, h2, Nat.le_trans hk (ρ.now_le h1), by
+        have : (ρ.st k).now ≤ max (ρ.st k).now (x.arrivedAt + Consts.acceptTimeoutMs) := Nat.le_max_left _ _
+        omega⟩
+    · obtain ⟨j1, hj1⟩ := hdiv (x.arrivedAt + Consts.acceptTimeoutMs)
+      obtain ⟨j0, hj0, hmin⟩ := exists_least (fun j => x.arrivedAt + Consts.acceptTimeoutMs ≤ (ρ.st j).now) j1 hj1
+      have hkj : k < j0 := by
+        apply Classical.byContradiction
+        intro hnot
+        have := ρ.now_le (Nat.le_of_not_lt hnot)
+        omega
+      have hprev : (ρ.st (j0 - 1)).now < x.arrivedAt + Consts.acceptTimeoutMs :=
+        Nat.lt_of_not_le (hmin (j0 - 1) (by omega))
+      obtain ⟨a, h1, h2, h3⟩ := hfair.1 (j0 - 1)
+      have ha : j0 ≤ a := by
+        apply Classical.byContradiction
+        intro hnot
+        have hae : a = j0 - 1 := by omega
+        have hn := ρ.next (j0 - 1)
+        have hj : j0 - 1 + 1 = j0 := by omega
+        rw [hj] at hn
+        have := (now_step (ρ.st (j0 - 1)) (ρ.op (j0 - 1))).2 (by rw [← hae, h2]; intro d hd; cases hd)
+        rw [← hn] at this
+        omega
+      refine ⟨a, by omega, h2, Nat.le_trans hj0 (ρ.now_le ha), ?_⟩
+      have : x.arrivedAt + Consts.acceptTimeoutMs ≤ max (ρ.st k).now (x.arrivedAt + Consts.acceptTimeoutMs) :=
+        Nat.le_max_right _ _
+      omega
+  obtain ⟨a, hka, hopa, hdl, hta⟩ := stepA
+  -- B: up to `a` the message either left the slot or still waits
+  have hpa := ρ.persist hx (a - k)
+  rw [Nat.add_sub_cancel' hka] at hpa
+  rcases hpa with ⟨i, h1, h2, h3⟩ | hxa
+  · exact ⟨i, h1, h3, by have := ρ.now_le (Nat.le_of_lt h2); omega⟩
+  · have hia := inv_reach (ρ.reach a)
+    have hna : ρ.st (a + 1) = (sweepAccept (ρ.st a)).1 := by rw [ρ.next a, hopa]; rfl
+    by_cases hnp : NoPending (ρ.st a).t
+    · -- nobody accept-pending: the next orphan sweep discards the message
+      obtain ⟨o, hao, hopo, hto⟩ := hfair.2 a
+      have hpo := ρ.persist_noPending hxa hnp (o - a)
+      rw [Nat.add_sub_cancel' hao] at hpo
+      rcases hpo with ⟨i, h1, h2, h3⟩ | ⟨hxo, hnpo⟩
+      · exact ⟨i, by omega, h3, by have := ρ.now_le (Nat.le_of_lt h2); omega⟩
+      · have hio := inv_reach (ρ.reach o)
+        have hno : ρ.st (o + 1) = (sweepOrphan (ρ.st o)).1 := by rw [ρ.next o, hopo]; rfl
+        refine ⟨o, by omega, ?_, by omega⟩
+        rw [hno]
+        refine (sweepOrphan_node hxo ?_).2
+        rcases getForRx_cases (ρ.st o).t hio.tinv x.m.port x.m.sid (ρ.st o).now with ⟨s, hs, hf, _⟩ | ⟨hnone, _⟩
+        · rw [sweepOrphan_eval hio.tinv hs hf]
+          intro i e hg hsi
+          obtain ⟨e', hsi', hfor⟩ := getExchForRx_slot s _ i hg
+          rw [hsi] at hsi'; cases hsi'
+          cases hrole : e.role with
+          | id => rfl
+          | rd => rfl
+          | rp => exact absurd hrole (hnpo s hs i e hsi)
+          | io => exact absurd ⟨s, hs, i, e, hf, hsi, hfor, by rw [hrole]; rfl⟩ (hun o (by omega) hxo)
+          | ro => exact absurd ⟨s, hs, i, e, hf, hsi, hfor, by rw [hrole]; rfl⟩ (hun o (by omega) hxo)
+        · exact sweepOrphan_eval_none hio.tinv hnone _ _
+    · -- an accept-pending exchange exists: it owns the message and its deadline has passed
+      have : ∃ s ∈ (ρ.st a).t.sessions, ∃ i e, s.slot i = some e ∧ e.role = .rp := by
+        apply Classical.byContradiction
+        intro hno
+        apply hnp
+        intro s hs i e he hr
+        exact hno ⟨s, hs, i, e, he, hr⟩
+      obtain ⟨s, hs, i, e, he, hrp⟩ := this
+      obtain ⟨r', hr', hf, hfor, hst⟩ := hia.pend s hs i e he hrp
+      rw [hxa] at hr'; cases hr'
+      refine ⟨a, hka, ?_, by omega⟩
+      rw [hna]
+      refine (sweepAccept_node hxa ?_).2
+      refine sweepAccept_fires hia.tinv hs hf he hfor hrp ?_
+      simp [Mrp.hasRxTimedOut, hst, hdl]
+
+/-! ## The dropped-exchange closer -/
+
+/-- **The closer acts whenever a dropped exchange exists** (every reachable state) -/
+theorem closer_acts_when_dropped {n : Node} (hr : Reach n) {s : Sess} (hs : s ∈ n.t.sessions) {i : Nat} {e : Exch}
+    (he : s.slot i = some e) (hd : e.role.isDropped = true) : (step n .closer).2 ≠ .closer .nothing := by
+  intro h
+  have := closer_acts (inv_reach hr).tinv n.now ⟨s.uid, i, s, hs, rfl, e, he, hd⟩
+  apply this
+  simpa [step, closer] using h
+
+/-- **A dropped exchange is closed as required** (every reachable state): one run of the closer either
+finds nothing — then no exchange is dropped —, or closes the session of a dropped exchange that still
+has a retransmission pending (the session is gone afterwards), or frees the slot of a dropped exchange
+without one, writing the standalone acknowledgement exactly if one is owed. No exchange becomes
+dropped by it, so the set of dropped exchanges strictly shrinks. -/
+theorem dropped_exchange_closed {n : Node} (hr : Reach n) :
+    CloserSpec n.t (step n .closer).1.t (n.t.sweepDropped n.now).2 :=
+  closer_effect (inv_reach hr).tinv n.now
+
+/-- **Every dropped exchange is eventually closed**: each run of the closer that finds a dropped
+exchange reduces their number (`closer_decreases`), so after as many runs as there are dropped
+exchanges (and no new drops in between) none is left. -/
+theorem closer_drains_all {n : Node} (hr : Reach n) :
+    ∀ uid i, ¬ DroppedAt (closerRuns (droppedCount n.t) n).t uid i :=
+  (droppedCount_zero_iff _).1 (closer_drains _ n (inv_reach hr) (Nat.le_refl _))
+
+theorem closer_progress {n : Node} (hr : Reach n) (hpos : 0 < droppedCount n.t) :
+    droppedCount (step n .closer).1.t < droppedCount n.t :=
+  closer_decreases (inv_reach hr).tinv n.now hpos
+
+/-! ## Traffic of the other exchanges keeps flowing -/
+
+/-- **Other exchanges progress** (every reachable state with a free RX slot — which
+`unclaimed_discarded_within` / `slot_always_freeable` provide): a fresh message (not a standalone
+ack, not `CloseSession`) for ANY exchange that is owned by a live `Exchange` and not waiting for an
+acknowledgement is kept in the slot for exactly that exchange, and the exchange's `recv` returns it —
+whatever the other exchanges of the node are doing (dropped, accept-timed-out, stalled). -/
+theorem other_exchanges_progress {n : Node} (hr : Reach n) (hrx : n.rx = none)
+    {s : Sess} (hs : s ∈ n.t.sessions) {i : Nat} {e : Exch} (he : s.slot i = some e)
+    (hown : RoleSt.isOwned e.role = true) (hnr : e.mrp.retrans = none) (m : Msg) (rnd : Nat)
+    (hf : s.isForRx m.port m.sid = true) (hfor : e.isForRx m.hdr = true)
+    (hk1 : m.kind ≠ .sack) (hk2 : m.kind ≠ .close)
+    (hfresh : (Dedup.postRecv s.rx m.ctr s.mode.enc false).2 = true) :
+    (step n (.arrive m rnd)).2 = .kept s.uid i false ∧
+    (step (step n (.arrive m rnd)).1 (.recv s.uid i)).2 = .delivered s.uid i m ∧
+    (step (step n (.arrive m rnd)).1 (.recv s.uid i)).1.rx = none := by
+  have hi := inv_reach hr
+  obtain ⟨harr, m', hsl, hm'⟩ := arrive_owner_eval hi hrx hs he hnr m rnd hf hfor hk1 hk2 hfresh
+  have hi1 : Inv (step n (.arrive m rnd)).1 := inv_step hi _
+  have hstep : step n (.arrive m rnd) = arrive n m rnd := rfl
+  rw [hstep, harr] at hi1 ⊢
+  refine ⟨rfl, ?_⟩
+  obtain ⟨ht1, hm1⟩ := get_tinv hi.tinv hs n.now
+  have hsame := (postRecv_same (touch s n.now) m.hdr n.now (ht1.nExch _ hm1)).1
+  have hy : ((touch s n.now).postRecv m.hdr n.now).1 ∈
+      ((n.t.setSess (touch s n.now)).setSess ((touch s n.now).postRecv m.hdr n.now).1).sessions :=
+    mem_setSess_self ht1.uidN hm1 hsame.uid
+  have hyf : ((touch s n.now).postRecv m.hdr n.now).1.isForRx m.port m.sid = true := by
+    rw [hsame.isForRx, (touch_same s n.now).isForRx]; exact hf
+  have hfire := recv_fires hi1 (r := { m := m, arrivedAt := n.now }) rfl hy hyf hsl hfor hown
+    (by simp [Mrp.isRetransPending, hm'])
+  have hu : ((touch s n.now).postRecv m.hdr n.now).1.uid = s.uid := hsame.uid
+  rw [hu] at hfire
+  exact hfire
+
+/-! ## Non-vacuity: concrete histories -/
+
+def exMa : Msg := { port := 11, sid := 0, ctr := 5, exch := 7, initiator := true, kind := .newSess }
+def exMb : Msg := { port := 22, sid := 0, ctr := 9, exch := 7, initiator := true, kind := .newSess }
+def exMa2 : Msg := { port := 11, sid := 0, ctr := 6, exch := 7, initiator := true, kind := .other }
+
+/-- two peers, two unsecured sessions, the SAME exchange id: each message reaches the exchange of its
+own session only (`recv` of the other one stays blocked) — the situation of seeded change C10-a -/
+def exOpsAB : List Op := [.arrive exMa 100, .accept, .recv 0 0, .arrive exMb 200, .recv 0 0, .accept, .recv 1 0,
+  .arrive exMa2 0, .recv 1 0, .recv 0 0]
+
+example : (run {} exOpsAB).2 =
+    [.kept 0 0 true, .accepted 0 0, .delivered 0 0 exMa, .kept 1 0 true, .blocked, .accepted 1 0,
+     .delivered 1 0 exMb, .kept 0 0 false, .blocked, .delivered 0 0 exMa2] := by decide
+
+/-- `delivered_only_to_owner_run` instantiated on the reachable state before the last step above -/
+example : ownerOf (run {} (exOpsAB.take 9)).1.t exMa2 = some (0, 0) :=
+  (delivered_only_to_owner_history 0 (exOpsAB.take 9) (uid := 0) (idx := 0) (m := exMa2) (by decide)).1
+
+/-- an unclaimed first message: nothing happens 999 ms after its arrival, at 1000 ms the accept sweep
+discards it and marks the exchange dropped, the closer then frees the slot and writes the ack it owes;
+a second run of the closer finds nothing -/
+example : (run {} [.arrive exMa 100, .tick 999, .sweepAccept, .sweepOrphan, .tick 1, .sweepAccept, .closer, .closer]).2 =
+    [.kept 0 0 true, .ok, .swept false, .swept false, .ok, .swept true,
+     .closer (.closedExchange 0 0 7 (some (100, 5))), .closer .nothing] := by decide
+
+/-- a reachable state with an accept-pending exchange: the hypotheses of `pending_has_message`,
+`slot_always_freeable` (case b), `accept_pending_is_stamped` are satisfiable -/
+example : Reach (run {} [.arrive exMa 100, .tick 5]).1 ∧
+    (run {} [.arrive exMa 100, .tick 5]).1.rx = some { m := exMa, arrivedAt := 0 } ∧
+    ((run {} [.arrive exMa 100, .tick 5]).1.t.sessions.map (fun s => s.exchs.map (fun o => o.map (·.role)))) = [[some .rp]] :=
+  ⟨reach_run (Reach.init 0) _, by decide, by decide⟩
+
+/-- a reachable state with a dropped exchange that owes an ack (hypotheses of `closer_acts_when_dropped`),
+and one whose session must be closed because a retransmission is pending -/
+example : ((run {} [.arrive exMa 100, .accept, .recv 0 0, .dropEx 0 0]).1.t.sessions.map
+      (fun s => s.exchs.map (fun o => o.map (·.role)))) = [[some .rd]] ∧
+    (run {} [.arrive exMa 100, .accept, .recv 0 0, .dropEx 0 0, .closer]).2.getLast? =
+      some (.closer (.closedExchange 0 0 7 (some (100, 5)))) ∧
+    (run {} [.arrive exMa 100, .accept, .recv 0 0, .send 0 0 true, .dropEx 0 0, .closer]).2.getLast? =
+      some (.closer (.closedSession 0 1 101)) := by decide
+
+/-- the owner's message is orphaned when its session is removed: the orphan sweep discards it (case a) -/
+example : (run {} [.arrive exMa 100, .accept, .removeSess 0, .sweepAccept, .sweepOrphan]).2 =
+    [.kept 0 0 true, .accepted 0 0, .ok, .swept false, .swept true] := by decide
+
+/-- `other_exchanges_progress` on a concrete state: session 0's exchange was dropped with an ack
+pending (and waits for the closer), session 1's owned exchange still gets its message -/
+example : (run {} [.arrive exMa 100, .accept, .recv 0 0, .arrive exMb 200, .accept, .recv 1 0, .dropEx 0 0,
+      .arrive { exMb with ctr := 10, kind := .other } 0, .recv 1 0]).2.drop 6 =
+    [.ok, .kept 1 0 false, .delivered 1 0 { exMb with ctr := 10, kind := .other }] := by decide
+
+/-- non-vacuity: two dropped exchanges (one owes an ack, one nothing), two closer runs, none left -/
+example :
+    let n := (run {} [.arrive exMa 100, .accept, .recv 0 0, .dropEx 0 0,
+                      .arrive { exMb with reliable := false } 200, .tick 1000, .sweepAccept]).1
+    droppedCount n.t = 2 ∧ droppedCount (closerRuns 2 n).t = 0 := by decide
+
+/-! ### a fair infinite run with an unclaimed message -/
+
+def fairM : Msg := { port := 11, sid := 0, ctr := 5, exch := 7, initiator := true, kind := .newSess }
+def fairT0 : Table := { nextUid := 1, nextSid := 1, nextExch := 1, sessions := [] }
+def fairX0 : Held := { m := fairM, arrivedAt := 0 }
+def fairOp (k : Nat) : Op := if k % 3 = 0 then .tick 25 else if k % 3 = 1 then .sweepAccept else .sweepOrphan
+def fairSt (k : Nat) : Node := { t := fairT0, rx := if k ≤ 2 then some fairX0 else none, now := 25 * ((k + 2) / 3) }
+
+theorem fairSt0 : fairSt 0 = (run {} [.arrive fairM 100, .removeSess 0]).1 := by decide
+
+theorem fairNext (k : Nat) : fairSt (k + 1) = (step (fairSt k) (fairOp k)).1 := by
+  have h3 : k % 3 = 0 ∨ k % 3 = 1 ∨ k % 3 = 2 := by omega
+  rcases h3 with h | h | h
+  · have : fairOp k = .tick 25 := by simp [fairOp, h]
+    rw [this]
+    have h1 : (k + 1 + 2) / 3 = (k + 2) / 3 + 1 := by omega
+    by_cases hk : k ≤ 2
+    · have hk2 : k + 1 ≤ 2 := by omega
+      simp [step, fairSt, h1, hk, hk2, Nat.mul_add]
+    · have hk2 : ¬ (k + 1 ≤ 2) := by omega
+      simp [step, fairSt, h1, hk, hk2, Nat.mul_add]
+  · have : fairOp k = .sweepAccept := by simp [fairOp, h]
+    rw [this]
+    have h1 : (k + 1 + 2) / 3 = (k + 2) / 3 := by omega
+    by_cases hk : k ≤ 2
+    · have hk2 : k + 1 ≤ 2 := by omega
+      simp [step, fairSt, h1, hk, hk2, sweepAccept, Table.sweepAccept, Table.getForRx, fairT0]
+    · have hk2 : ¬ (k + 1 ≤ 2) := by omega
+      simp [step, fairSt, h1, hk, hk2, sweepAccept]
+  · have : fairOp k = .sweepOrphan := by simp [fairOp, h]
+    rw [this]
+    have h1 : (k + 1 + 2) / 3 = (k + 2) / 3 := by omega
+    have hk2 : ¬ (k + 1 ≤ 2) := by omega
+    by_cases hk : k ≤ 2
+    · simp [step, fairSt, h1, hk, hk2, sweepOrphan, Table.sweepOrphan, Table.getForRx, fairT0]
+    · simp [step, fairSt, h1, hk, hk2, sweepOrphan]
+
+def fairRun : Run where
+  st := fairSt
+  op := fairOp
+  next := fairNext
+  reach0 := by rw [fairSt0]; exact reach_run (Reach.init 0) _
+
+theorem fairRun_fair : SweepFair fairRun 50 50 := by
+  constructor
+  · intro k
+    have h3 : k % 3 = 0 ∨ k % 3 = 1 ∨ k % 3 = 2 := by omega
+    rcases h3 with h | h | h
+    · refine ⟨k + 1, by omega, (by have e1 : (k + 1) % 3 = (k % 3 + 1) % 3 := by omega
+                                   simp [fairRun, fairOp, e1, h]), ?_⟩
+      show 25 * ((k + 1 + 2) / 3) ≤ 25 * ((k + 2) / 3) + 50
+      omega
+    · refine ⟨k, by omega, by simp [fairRun, fairOp, h], by omega⟩
+    · refine ⟨k + 2, by omega, (by have e1 : (k + 2) % 3 = (k % 3 + 2) % 3 := by omega
+                                   simp [fairRun, fairOp, e1, h]), ?_⟩
+      show 25 * ((k + 2 + 2) / 3) ≤ 25 * ((k + 2) / 3) + 50
+      omega
+  · intro k
+    have h3 : k % 3 = 0 ∨ k % 3 = 1 ∨ k % 3 = 2 := by omega
+    rcases h3 with h | h | h
+    · refine ⟨k + 2, by omega, (by have e1 : (k + 2) % 3 = (k % 3 + 2) % 3 := by omega
+                                   simp [fairRun, fairOp, e1, h]), ?_⟩
+      show 25 * ((k + 2 + 2) / 3) ≤ 25 * ((k + 2) / 3) + 50
+      omega
+    · refine ⟨k + 1, by omega, (by have e1 : (k + 1) % 3 = (k % 3 + 1) % 3 := by omega
+                                   simp [fairRun, fairOp, e1, h]), ?_⟩
+      show 25 * ((k + 1 + 2) / 3) ≤ 25 * ((k + 2) / 3) + 50
+      omega
+    · refine ⟨k, by omega, by simp [fairRun, fairOp, h], by omega⟩
+
+theorem fairRun_diverges : TimeDiverges fairRun := by
+  intro T
+  refine ⟨3 * T, ?_⟩
+  show T ≤ 25 * ((3 * T + 2) / 3)
+  omega
+
+/-- non-vacuity of `unclaimed_discarded_within`: all its hypotheses hold together on a concrete infinite
+run — the message of a session that was removed waits in the RX slot, the scheduler repeats
+(25 ms pass, accept sweep, orphan sweep) for ever, nobody owns the message -/
+example : ∃ j, 0 ≤ j ∧ (fairRun.st (j + 1)).rx = none ∧
+    (fairRun.st j).now ≤ max (fairRun.st 0).now (fairX0.arrivedAt + Consts.acceptTimeoutMs) + 50 + 50 :=
+  unclaimed_discarded_within fairRun fairRun_fair fairRun_diverges (k := 0) (x := fairX0) rfl
+    (fun j _ _ ⟨s, hs, _⟩ => by simp [fairRun, fairSt, fairT0] at hs)
 
 end C10
